@@ -48,10 +48,54 @@ type c11Host struct {
 
 type c11Net struct {
 	network.Network
-	rm network.ResourceManager
+	rm  network.ResourceManager
+	env *c11Env
+	mu  sync.Mutex
+	nfs map[network.Notifiee]network.Notifiee
 }
 
 func (n *c11Net) ResourceManager() network.ResourceManager { return n.rm }
+
+// Connectedness: a peer to which the relay host holds only a LIMITED connection (it reaches
+// the peer through another relay; faked by the harness, op 10/11 with k = 2) is Limited.
+func (n *c11Net) Connectedness(p peer.ID) network.Connectedness {
+	c := n.Network.Connectedness(p)
+	if c == network.NotConnected && n.env.isLimited(p) {
+		n.env.cover("connectedness_limited")
+		return network.Limited
+	}
+	return c
+}
+
+// notifiees see this network (and its Connectedness), not the raw mocknet one
+type c11Notif struct {
+	network.Notifiee
+	nw *c11Net
+}
+
+func (f *c11Notif) Connected(_ network.Network, c network.Conn)    { f.Notifiee.Connected(f.nw, c) }
+func (f *c11Notif) Disconnected(_ network.Network, c network.Conn) { f.Notifiee.Disconnected(f.nw, c) }
+
+func (n *c11Net) Notify(f network.Notifiee) {
+	w := &c11Notif{Notifiee: f, nw: n}
+	n.mu.Lock()
+	if n.nfs == nil {
+		n.nfs = map[network.Notifiee]network.Notifiee{}
+	}
+	n.nfs[f] = w
+	n.mu.Unlock()
+	n.Network.Notify(w)
+}
+
+func (n *c11Net) StopNotify(f network.Notifiee) {
+	n.mu.Lock()
+	w := n.nfs[f]
+	delete(n.nfs, f)
+	n.mu.Unlock()
+	if w != nil {
+		n.Network.StopNotify(w)
+	}
+}
 
 func (h *c11Host) Network() network.Network             { return h.nw }
 func (h *c11Host) ConnManager() coreconnmgr.ConnManager { return h.cm }
